@@ -3,6 +3,7 @@ package props
 import (
 	"fmt"
 	"go/types"
+	"sort"
 	"strings"
 
 	"golang.org/x/tools/go/ssa"
@@ -269,4 +270,59 @@ func ruleRecvHandOver(c *Ctx, rule string) {
 	c.HasNot(rule, rh, "no unconditional hand-over to the router", `^send:%rs\.rd<-`)
 	c.Has(rule, rh, "hand-over while open has the closed signal as alternative", `^select\{send:%rs\.rd<-.*;recv:%rs\.closed\}$`, 1)
 	c.Has(rule, rh, "hand-over after close is bounded by a timer", `^select\{send:%rs\.rd<-.*;recv:call:time\.NewTimer\(1000000000\)\.C\}$`, 1)
+}
+
+// phiLeaves flattens nested phis (and interface conversions) to the values that can flow into v.
+func phiLeaves(v ssa.Value, seen map[ssa.Value]bool, out *[]ssa.Value) {
+	if seen[v] {
+		return
+	}
+	seen[v] = true
+	switch x := v.(type) {
+	case *ssa.Phi:
+		for _, e := range x.Edges {
+			phiLeaves(e, seen, out)
+		}
+	case *ssa.MakeInterface:
+		phiLeaves(x.X, seen, out)
+	case *ssa.ChangeInterface:
+		phiLeaves(x.X, seen, out)
+	default:
+		*out = append(*out, v)
+	}
+}
+
+// ruleWebsocketServerProtocols: the router's websocket handler hands the peer only a serializer that was selected by
+// the negotiated sub-protocol (a fresh serializer of the three built-in protocols or the entry of the registered
+// protocol table); a connection whose sub-protocol selects nothing never gets a peer built from an unset value.
+func ruleWebsocketServerProtocols(c *Ctx, r string) {
+	hw := "router.(*WebsocketServer).handleWebsocket"
+	fn := c.Fn(r, hw)
+	if fn == nil {
+		return
+	}
+	calls := matches(fn, `^call:transport\.NewWebsocketPeer\(`)
+	if len(calls) == 0 {
+		c.R.Unknown(r, hw, "websocket peer construction", c.P.FuncPos(fn), "no call of transport.NewWebsocketPeer found")
+		return
+	}
+	okLeaf := re(`^new\(serialize\.\w+\)$|^%s\.protocols\[.*\],ok#0\.serializer$`)
+	for _, in := range calls {
+		call := in.(*ssa.Call)
+		if len(call.Call.Args) < 2 {
+			c.R.Unknown(r, hw, "websocket peer construction", c.pos(in), "unexpected argument list")
+			continue
+		}
+		var leaves []ssa.Value
+		phiLeaves(call.Call.Args[1], map[ssa.Value]bool{}, &leaves)
+		var bad []string
+		for _, l := range leaves {
+			if d := ir.Desc(l); !okLeaf.MatchString(d) {
+				bad = append(bad, d)
+			}
+		}
+		sort.Strings(bad)
+		c.R.Check(len(bad) == 0 && len(leaves) > 0, r, hw, "serializer of a websocket peer is one selected by the negotiated sub-protocol", c.pos(in),
+			"the serializer given to the peer can be "+strings.Join(bad, ", ")+", which is not selected by a sub-protocol (an unset value is nil: the peer's handlers call it and panic, or frames are exchanged in a format the client never agreed to)")
+	}
 }
